@@ -174,6 +174,13 @@ pub fn obj_reject_reason(
         Fault::CrlUri(uri) => if *uri != ca.crl_uri() { return Some("crl-uri-mismatch") },
         Fault::Garbage => return Some("undecodable"),
     }
+    // BER re-framed certificates never decode (`Cert::decode` is DER only);
+    // BER re-framed signed objects are accepted in lax mode (assumed here).
+    if matches!(obj.publish, Publish::Ber | Publish::BerLongLen)
+        && matches!(obj.kind, ObjKind::Ca { .. } | ObjKind::Router { .. })
+    {
+        return Some("undecodable")
+    }
     if now < obj.not_before { return Some("not-yet-valid") }
     if now > obj.not_after { return Some("expired") }
     if crl.revoked.contains(&obj.serial) { return Some("revoked") }
@@ -237,6 +244,6 @@ pub fn version_payload(
 pub fn version_complete(version: &PointVersion) -> bool {
     version.crl.publish.is_normal()
         && version.objects.iter().all(|o| {
-            matches!(o.publish, Publish::Normal | Publish::Unlisted)
+            matches!(o.publish, Publish::Normal | Publish::Unlisted | Publish::Ber | Publish::BerLongLen)
         })
 }
